@@ -27,6 +27,13 @@ pub trait Poll {
 		&'a self, header: &'a ValidatedBlockHeader,
 	) -> impl Future<Output = BlockSourceResult<ValidatedBlockHeader>> + Send + 'a;
 
+	/// Checks that `header` builds on `previous_header`, as [`Poll::look_up_previous_header`] does
+	/// for the header it returns. Used when the previous header is already known, such that the
+	/// data claimed for `header` (height, chainwork, difficulty) is checked all the same.
+	fn check_builds_on(
+		&self, header: &ValidatedBlockHeader, previous_header: &ValidatedBlockHeader,
+	) -> BlockSourceResult<()>;
+
 	/// Returns the block associated with the given header.
 	fn fetch_block<'a>(
 		&'a self, header: &'a ValidatedBlockHeader,
@@ -256,6 +263,12 @@ impl<B: Deref<Target = T> + Sized + Send + Sync, T: BlockSource + ?Sized> Poll
 
 			Ok(previous_header)
 		}
+	}
+
+	fn check_builds_on(
+		&self, header: &ValidatedBlockHeader, previous_header: &ValidatedBlockHeader,
+	) -> BlockSourceResult<()> {
+		header.check_builds_on(previous_header, self.network)
 	}
 
 	fn fetch_block<'a>(
